@@ -90,7 +90,7 @@ def load_known():
         return json.load(fh)
 
 
-def finish(result, tier, t0, selftest=None):
+def finish(result, tier, t0, selftest=None, prog=None):
     """Match findings against the known-findings file, write evidence, print, return exit code."""
     known = load_known()
     known_keys = {k["key"]: k for k in known.get("findings", []) if k.get("property") == result.prop}
@@ -152,6 +152,14 @@ def finish(result, tier, t0, selftest=None):
     }
     if selftest is not None:
         coverage["selftest"] = selftest
+    if prog is not None:
+        gated = sorted("%s.%s" % (m.name, q) for m in prog.modules.values() for q in getattr(m, "gated", []))
+        coverage["normal_form_gate"] = {
+            "reference": getattr(prog, "reference_head", None),
+            "functions_analysed_in_reference_form": gated,
+            "rule": "a function whose text differs from /verif/reference but whose function normal form (sa/fnf.py) is equal is analysed "
+                    "in its reference form; any other difference is analysed as written",
+        }
     evidence = {
         "property_id": result.prop,
         "tier": tier,
